@@ -48,9 +48,14 @@ OPEN_CLI = [
     "C12_cost_line / C12_all_superset_any: the interface hypotheses are discharged in Properties/C12Bridge.lean "
     "(embedding Sol -> RecOutput/SRecOutput in Model/SolOutput.lean; `evaluated cost of the embedded output = "
     "totalCost`, well-formedness under injective safe names, the evaluator's set-invariance and the Newick law are "
-    "theorems: C12_cost_line_thl / _exh / _spfs / _uspfs, C12_all_superset_any_thl / _spfs / _uspfs). Left: (i) "
-    "`json.loads(json.dumps(d)) = d` is the only hypothesis (C12_cost_line_json; the Serialize model has no JSON text "
-    "layer; the dictionary-level statements need nothing); (ii) `--solutions any` inside each family's coherent region "
+    "theorems: C12_cost_line_thl / _exh / _spfs / _uspfs, C12_all_superset_any_thl / _spfs / _uspfs). (i) the JSON text "
+    "layer is modelled (Model/Json.lean: render = json.dumps with default options, parse = json.loads, tied byte for "
+    "byte by harness/checks/c12_json.py) and `json.loads(json.dumps(v)) = v` is a THEOREM for every value without "
+    "repeated keys, all string escapes included (C12_json_roundtrip; to_dict never repeats a key: C12_to_dict_ok_*), "
+    "so the cost-line theorems hold on the written TEXT with no hypothesis on the encoder "
+    "(Properties/C12Json.lean: C12_cost_line_text_thl / _exh / _spfs / _uspfs — one line per result, every line parses "
+    "to a dictionary read back with the printed cost); floats other than +-Infinity, NaN and strings with lone "
+    "surrogates are outside the JSON model (to_dict writes none). Left: (ii) `--solutions any` inside each family's coherent region "
     "only (outside, ANY in ALL fails: C05_any_incoherent_witness); `lca` not covered (single result)",
     "eval_cost: no theorem relates the shunting-yard parser to Python's grammar (tie only); proved: totality, "
     "no exception other than the three listed, the algebra of the values, and the print/parse round trip on "
